@@ -4,6 +4,7 @@
 package main
 
 import (
+	"encoding/json"
 	"flag"
 	"fmt"
 	"os"
@@ -99,6 +100,43 @@ func main() {
 			os.Exit(2)
 		}
 		props.DebugUniversalE6(&props.Run{P: p, E: core.NewEngine(p), R: core.NewReport("dbg", "quick", 0)})
+		return
+	}
+	if *dump == "vocab" {
+		v, err := core.ScanNames(*dir, nil)
+		if err != nil {
+			fmt.Println(err)
+			os.Exit(2)
+		}
+		// mock and test-support packages carry no anchors
+		b, _ := json.MarshalIndent(v, "", " ")
+		fmt.Println(string(b))
+		return
+	}
+	if *dump == "norm" {
+		nr, err := core.Normalise(core.Config{Name: "default", Dir: *dir}, core.EmbeddedVocab())
+		if err != nil {
+			fmt.Println("ERROR", err)
+			os.Exit(2)
+		}
+		if nr == nil {
+			fmt.Println("nothing to normalise")
+			return
+		}
+		for _, l := range nr.Inlined {
+			fmt.Println("inlined", l)
+		}
+		for _, l := range nr.Refused {
+			fmt.Println("refused", l)
+		}
+		for k := range nr.Dropped {
+			fmt.Println("dropped", k)
+		}
+		if os.Getenv("NORM_SHOW") != "" {
+			for f, b := range nr.Overlay {
+				fmt.Printf("=== %s\n%s\n", f, b)
+			}
+		}
 		return
 	}
 	if *dump == "guarded" {
